@@ -29,7 +29,7 @@ PROPS = {
                                              "plain scalars equal to '~' are exempt from the span-text rule (synthesized for omitted nodes)"]),
     'C14': dict(rule=FAMILY_RULE + "; only CR-free inputs containing at least one line break count as non-trivial", builds=[('rel', 1.0, 1.0)],
                 must_observe=['comparisons', 'inputs_with_breaks'], assumptions=COMMON_ASSUME),
-    'C17': dict(rule=FAMILY_RULE, builds=[('rel', 1.0, 1.0)], must_observe=['histories', 'push_pull_comparisons', 'single_doc_call_sequences', 'inputs_with_all_histories'],
+    'C17': dict(rule=FAMILY_RULE, builds=[('rel', 1.0, 1.0)], must_observe=['histories', 'push_pull_comparisons', 'single_doc_call_sequences', 'inputs_with_all_histories', 'next_then_load_histories'],
                 assumptions=COMMON_ASSUME + ["a history ends at the first Err returned by peek or next (the statement lets the consumer stop there)"]),
     'C03': dict(
         rule=("streams rendered from random abstract node trees by the spec-derived renderer under random legal layout choices "
@@ -181,3 +181,7 @@ PROPS['C20']['builds'] = [('rel', 3.0, 2.5)]
 # supplementary Miri pass (thorough tier): scale of the quick workload that is run under the interpreter
 for k, sc in {'C01': 0.002, 'C10': 0.002, 'C18': 0.01, 'C19': 0.003, 'C20': 0.004}.items():
     PROPS[k]['miri_scale'] = sc
+
+# informative line-coverage report in the thorough evidence
+for k in ['C01', 'C03', 'C09']:
+    PROPS[k]['coverage_scale'] = 0.3
